@@ -278,6 +278,12 @@ def run(case):
                 else:
                     s, idx, kind = w.samplers[op[1] % len(w.samplers)]
                     touched_origin = w.conts[idx][1]
+                    ref_c = w.conts[idx][0]
+                    if sum(len(ref_c._annotations[a]) for a in s._ground_truth_annotators if a in ref_c._annotations) == 0:
+                        # the reference was mutated after init_sampling and its ground-truth annotators hold no unit any
+                        # more: no non-empty sample exists (the shuffle sampler would retry forever) - outside the property
+                        stats["ops_skipped"] = stats.get("ops_skipped", 0) + 1
+                        continue
                     np.random.seed(op[2])
                     # every other draw goes through the RNG seam with an adversary returning legal extremes
                     # (pivot at a bound, zero counts ...): rare draws are where samples may end up sharing state
